@@ -41,7 +41,7 @@ func panicSite(stderr string) string {
 // C13: goverter never panics or hangs; every input ends in output or a diagnostic.
 func C13(e *core.Env) int {
 	rep := core.NewReport(e, "exploration")
-	rep.Rule = "one child process of the real CLI per fuzzed input (input written to disk before the run, 30 s watchdog with SIGQUIT goroutine dump, hang confirmed by a second run with doubled deadline): (a) converters over exotic type-grammar leaves (uintptr, unsafe.Pointer, chan directions, variadic func, error, embedded interfaces, generics, recursive and mutually recursive types, zero-length arrays, blank/embedded fields) under random flags and signatures, pre-checked to compile; (b) valid converter with 1-3 grammar-plus-mutation directive lines at converter/method/-g/custom-function/variables positions; (c) random argument vectors. Oracle: exit status in {0,1}, no Go panic/fatal dump on stderr, exit 1 => non-empty stderr, exit 0 with a converter => >=1 file written; non-trivial = input reached goverter and terminated; distinct = distinct (kind, note) of the input"
+	rep.Rule = "one child process of the real CLI per fuzzed input (input written to disk before the run, 30 s watchdog with SIGQUIT goroutine dump, hang confirmed by a second run with doubled deadline): (a) converters over exotic type-grammar leaves (uintptr, unsafe.Pointer, chan directions, variadic func, error, embedded interfaces, generics, recursive and mutually recursive types, zero-length arrays, blank/embedded fields) under random flags and signatures, pre-checked to compile; (b) valid converter with 1-3 grammar-plus-mutation directive lines at converter/method/-g/custom-function/variables positions; (c) random argument vectors; (d) method sets: 2-4 methods over one recursive type family in pointer / value / container / update variants with random field and flag settings, so that sibling lookup, overlapping-settings detection, recursion sub-methods and update methods meet. Oracle: exit status in {0,1}, no Go panic/fatal dump on stderr, exit 1 => non-empty stderr, exit 0 with a converter => >=1 file written; non-trivial = input reached goverter and terminated; distinct = distinct (kind, note) of the input"
 	rep.Assumptions = []string{"'never hangs' is decided as 'finishes within 300x the normal duration'", "inputs that do not compile are generator bugs and dropped"}
 	rep.Floor = tierN(e, 100, 1000)
 	n := tierN(e, 1500, 30000)
@@ -51,10 +51,12 @@ func C13(e *core.Env) int {
 		name := fmt.Sprintf("f%05d", i)
 		cr := rand.New(rand.NewSource(r.Int63()))
 		switch {
-		case i%10 < 5:
+		case i%10 < 4:
 			cases = append(cases, pgen.FuzzTypeCase(cr, name))
-		case i%10 < 9:
+		case i%10 < 7:
 			cases = append(cases, pgen.FuzzDirectiveCase(cr, name))
+		case i%10 < 9:
+			cases = append(cases, pgen.FuzzMethodSetCase(cr, name))
 		default:
 			cases = append(cases, pgen.FuzzArgvCase(cr, name))
 		}
